@@ -105,6 +105,15 @@ def gen_ops(quick, seed):
             if True:
                 out.append(ps("op:%s%s%s" % (an, op, bn), "x = %s\ny = %s\nx %s y\nprobe(x)" % (al, bl, op),
                               tag="compound assignment"))
+            # the target is a name that exists only as a key of the point (the right operand: a variable or another key): the result
+            # is bound to the name - later reads see it, a second compound assignment builds on it
+            if av is not NOSTORE and (not quick or rng.random() < 0.25):
+                pt = {"meas": "m", "tags": {}, "fields": {"px": av}}
+                text = "y = %s\npx %s y\nprobe(px)\npx %s y\nprobe(px, px)" % (bl, op, op)
+                if bv is not NOSTORE and rng.random() < 0.5:
+                    pt["fields"]["py"] = bv
+                    text = "px %s py\nprobe(px)\npx %s py\nprobe(px, py)" % (op, op)
+                out.append(ps("op:%s%s%s:pk" % (an, op, bn), text, pt=pt, tag="compound assignment to a name that is only a point key"))
     if quick:
         # containers holding containers: membership / equality / concatenation-like operators against every container class
         nested = [o for o in OPERANDS if o[0] in ("ll1", "lma", "mma", "mnil", "lnil")]
@@ -218,6 +227,11 @@ def gen_index(quick, seed):
             'x = [1, "a", nil, 2.5, [1], {"k": 1}]\nprobe(1 in x, "a" in x, nil in x, 2.5 in x, [1] in x, {"k": 1} in x, 1.0 in x, "b" in x)',
             'probe("a" in "cat", "" in "cat", "x" in "cat", "a" in {"a": 1}, "b" in {"a": 1})',
             'probe(1 in "cat")', 'probe(1 in {"a": 1})', "probe(1 in 5)", 'probe("a" in nil)',
+            # text in text: a text contains itself, the empty text is in every text (also in the empty one), a longer one is in no shorter one;
+            # operands of equal length, from literals, variables, slices and point keys
+            'probe("abc" in "abc", "" in "", "a" in "a", "ab" in "ba", "abc" in "ab", "bc" in "abc", "hé" in "hé", "é" in "hé", "h" in "é")',
+            's = "abc"\nt = "abc"\nprobe(s in s, s in t, s[1:] in "bc", "bc" in s[1:], s[:0] in s[:0], s in s[1:], fs in fs, fs in "sv", "sv" in fs, tg in "tv")',
+            'for a in ["", "a", "ab", "ba"] {\nfor b in ["", "a", "ab", "ba"] {\nprobe(a, b, a in b)\n}\n}',
             # a literal written directly as an argument is evaluated like anywhere else: repeated keys collapse, a failing element is
             # an error, elements are evaluated (once, in order)
             'probe(len({"a": 1, "b": 2, "a": 3}))', 'm = {"a": 1, "b": 2, "a": 3}\nprobe(m, len(m))', 'z = [1, 2, 3]\nprobe(len([z[0], z[7]]))\nprobe(9)',
@@ -746,7 +760,14 @@ def gen_hostile(quick, seed):
                  'x = V != 1', 'trim(V)', 'uppercase(V)', 'url_decode(V)', 'replace(V, "x", "y")', 'sql_cover(V)', 'x = grok(V, "%{WORD:w}")', 'x = len(V)',
                  'for e in V {\nprobe(1)\n}', 'x = V + V', 'x = V[0][0][0][0]', 'set_measurement(V)', 'set_measurement(V, true)', 'rename(k, V)', 'xml(V, "/a", o)',
                  'default_time(V)', 'x = load_json(V)', 'if V {\nprobe(1)\n}', 'x = !V', 'x = V && V', 'x = V[0:1]', 'x = V[::-1]', 'probe(len(V))', 'drop_key(V)',
-                 'y = V\nadd_key(k)\nk = V\nadd_key(k)', 'x = {"q": V}\nprintf("%v", x)']
+                 'y = V\nadd_key(k)\nk = V\nadd_key(k)', 'x = {"q": V}\nprintf("%v", x)',
+                 # ... as an (ill-typed) subscript, slice bound, map key, operand of every operator, argument of every builtin position
+                 'b = [1, 2, 3]\nx = b[V]', 'b = [1, 2, 3]\nb[V] = 1', 'b = {"a": 1}\nx = b[V]', 'b = {"a": 1}\nb[V] = 1', 'b = [1, 2, 3]\nx = b[V:]',
+                 'b = [1, 2, 3]\nx = b[:V]', 'b = [1, 2, 3]\nx = b[::V]', 'b = "abc"\nx = b[V:V]', 'b = [[1]]\nx = b[0][V]', 'b = [1]\nb[V] += 1',
+                 'x = V + 1', 'x = 1 - V', 'x = V * 2', 'x = V / 2', 'x = V % 2', 'x = V < 1', 'x = 1 >= V', 'x = -V', 'x = +V', 'x = "s" + V', 'x = V || true',
+                 'x = 1 in V', 'x = V in "abc"', 'x = V in {"a": 1}', 'x = {V: 1}' if False else 'x = [V][0][0]', 'x = 1\nx += V', 'x = V\nx += 1',
+                 'rename(V, k)', 'add_key(V, 1)', 'set_tag(V, "v")', 'drop_key(V)', 'cast(k, V)' if False else 'x = get_key(V)', 'trim(k, V)' if False else 'strfmt(V, "%v", 1)',
+                 'for i = V; i < 1; i = i + 1 {\nbreak\n}', 'for ; V; {\nbreak\n}', 'if 1 == V {\nprobe(1)\n}', 'x = load_json("[1]")\ny = x[V]']
     # two distinct values of the same self-containing shape, compared / searched with each other
     two = ['a = [1, 0]\na[1] = a\nb = [1, 0]\nb[1] = b', 'a = {"x": 1}\na["x"] = a\nb = {"x": 1}\nb["x"] = b', 'a = [[0]]\na[0][0] = a\nb = [[0]]\nb[0][0] = b',
            'a = [1, 0]\na[1] = a\nb = [1, [1, 0]]\nb[1][1] = b']
@@ -824,6 +845,7 @@ CHECK_TEMPLATES = [
     "x = .[@]", ".[@]", "x = .[0][@]", "if .[@] == 1 { }", "x = .[@].b", "x = z.b[@]", "x = z.b.c[0][@]", "for ; .[@]; { break }",
     "x = z[@:]", "x = z[:@]", "x = z[::@]", "x = z[1:@]", "x = z[1::@]", "x = z[:1:@]", "x = z[1:2:@]", "x = z[@:1:1]", "x = z[@::1]",
     'x = "abc"[@:]', "x = [1, 2][::@]", "x = z[1:][@:]", "x = len(z)[::@]",
+    "z.b[@] = 1", "(z[@]) = 1", "z[@:] = 1", "z.b[@] += 1", "z.b.c[0][@] = 1", "x, z.b[@] = 1, 2", "for z.b[@] = 0; z; { break }", "z[0].b[@] = 1", "@ = 1",
     "len(@)", "add_key(k, @)", "probe(1, @)", "probe(@, 1)", "len(len(@))", "pv(@)", "probe(a = @)", "add_key(k, [1, {\"q\": @}])",
     # the construct as the OBJECT of a slice / of nested slices (a call may be sliced directly)
     "x = @[0:1]", "x = @[1:][0:1]", "y = [@[::2]]", "if @[:1] { }", "for v in @[0:2] { }", "add_key(k, @[-1:])",
